@@ -163,6 +163,7 @@ func (rs reclaimsim) Run(c *Case, dir string) *Outcome {
 		}
 	}
 	for i := 0; i < ex.Txs && len(viol) == 0; i++ {
+		Tick()
 		// reader pattern between write transactions
 		switch ex.Pattern {
 		case "long":
